@@ -4,8 +4,10 @@
     straddle a sector boundary; FAT16 likewise (FAT32 entries are four aligned bytes, same argument).  So the chains
     of files an operation does not touch survive a torn FAT flush.  The data half: every device write of a file-data
     write addresses a cluster of the file's own chain or a cluster that was free, so ANY subset of those writes (any
-    crash point, any reordering) leaves every cluster of every other chain as it was.  The directory half and the
-    composition over whole operations (C12_confine) are checked by remounting the real image at every crash point. *)
+    crash point, any reordering) leaves every cluster of every other chain as it was; the same for the rewrite of a
+    directory held in a cluster chain, including its growth and the erasing of the new clusters (C12_dir_crash).  The
+    composition over whole operations (C12_confine: several such primitives plus FAT flushes in sequence) is checked by
+    remounting the real image at every crash point. *)
 From Coq Require Import ZArith List Bool Lia.
 From PyFatV Require Import Base.Bytes Base.PyEnv Gen.Pure Model.Codec Model.Dir Model.FS Proofs.Session Proofs.Device Proofs.DirCodec Proofs.DirState Proofs.Chains Proofs.FileData.
 Import ListNotations.
@@ -36,3 +38,13 @@ Theorem C12_data_crash : forall s data c s' ch,
       dread (apply_some (s_dev s) l keep) (s_dsize s) (cluster_addr s y) (bpc s) = rd s (cluster_addr s y) (bpc s).
 Proof. exact data_crash. Qed.
 Print Assumptions C12_data_crash.
+
+Theorem C12_dir_crash : forall s data c e s' ch,
+  dev_ok (s_dev s) -> geom_ok s -> vt (ft s) -> 0 <= s_hint s ->
+  chain s c = (ch, true) -> Forall (inside s) ch -> vol_ok s ->
+  write_data_to_cluster s data c e = Ok s' ->
+  exists l, s_log s' = l ++ s_log s /\
+    forall keep y, 2 <= y -> ~ In y ch -> nthZ (s_fat s) y <> 0 -> inside s y ->
+      dread (apply_some (s_dev s) l keep) (s_dsize s) (cluster_addr s y) (bpc s) = rd s (cluster_addr s y) (bpc s).
+Proof. exact dir_crash. Qed.
+Print Assumptions C12_dir_crash.
